@@ -1025,28 +1025,28 @@ impl<Backing : AsRef<[u32]> + AsMut<[u32]>> DrawTarget<Backing> {
 
     /// Draws `src_rect` of `src` at `dst`. The current transform and clip are ignored
     pub fn composite_surface<F: Fn(&[u32], &mut [u32]), SrcBacking: AsRef<[u32]>>(&mut self, src: &DrawTarget<SrcBacking>, src_rect: IntRect, dst: IntPoint, f: F) {
-        let dst_rect = intrect(0, 0, self.width, self.height);
-
-        // the pixel at `p` in the source lands on `p + offset` in the destination
-        let offset = dst.to_vector() - src_rect.min.to_vector();
+        // `src_rect` and `dst` can be anywhere in the i32 range, so the clipping is done in i64
+        // where none of the sums and differences below can overflow.
+        // The pixel at `p` in the source lands on `p + offset` in the destination
+        let offset_x = dst.x as i64 - src_rect.min.x as i64;
+        let offset_y = dst.y as i64 - src_rect.min.y as i64;
 
         // intersect the src_rect with the source size so that we don't go out of bounds
-        let src_rect = src_rect.intersection_unchecked(&intrect(0, 0, src.width, src.height));
-
         // and drop the part that would fall outside of the destination
-        let src_rect = dst_rect
-            .intersection_unchecked(&src_rect.translate(offset)).translate(-offset);
+        let min_x = (src_rect.min.x as i64).max(0).max(-offset_x);
+        let min_y = (src_rect.min.y as i64).max(0).max(-offset_y);
+        let max_x = (src_rect.max.x as i64).min(src.width as i64).min(self.width as i64 - offset_x);
+        let max_y = (src_rect.max.y as i64).min(src.height as i64).min(self.height as i64 - offset_y);
 
-        if src_rect.is_empty() {
+        if min_x >= max_x || min_y >= max_y {
             return;
         }
 
-        for y in src_rect.min.y..src_rect.max.y {
-            let dst_row_start = (src_rect.min.x + offset.x + (y + offset.y) * self.width) as usize;
-            let dst_row_end = dst_row_start + src_rect.size().width as usize;
-            let src_row_start = (src_rect.min.x + y * src.width) as usize;
-            let src_row_end = src_row_start + src_rect.size().width as usize;
-            f(&src.buf.as_ref()[src_row_start..src_row_end], &mut self.buf.as_mut()[dst_row_start..dst_row_end]);
+        let width = (max_x - min_x) as usize;
+        for y in min_y..max_y {
+            let dst_row_start = (min_x + offset_x + (y + offset_y) * self.width as i64) as usize;
+            let src_row_start = (min_x + y * src.width as i64) as usize;
+            f(&src.buf.as_ref()[src_row_start..src_row_start + width], &mut self.buf.as_mut()[dst_row_start..dst_row_start + width]);
         }
     }
 
